@@ -1,4 +1,4 @@
-import JadeModel.Proofs.SystemLive2Defs
+import JadeModel.Proofs.SystemLive1Defs
 
 set_option linter.unusedSimpArgs false
 
